@@ -21,7 +21,7 @@ points (streams <= 160 B), one byte at a time, random k-cuts (k<=12); over a uni
 sender's write schedule with 0-3 ms pauses. Oracle: replies(chunked) == replies(whole) byte for byte, same error \
 position, tail == bytes after the last complete message, bytes seen by the recording upgraded handler == bytes \
 after the upgrade request. Non-trivial: a cut adjacent to a NUL (end-1, end, end+1 of a message) or inside a \
-message that follows another one, or any cut after an upgrade request with payload; distinct by (stream, cuts).";
+message that follows another one, or any cut after an upgrade request with payload; distinct by (stream, cuts). Through examples/ping --multiplex also upgrading calls: the payload in the same write as the request (below and beyond one 8 KiB read) or behind the upgrade reply must come back from the upgraded handler complete.";
 
 #[derive(Clone, Debug)]
 pub struct Case {
@@ -695,6 +695,19 @@ fn replay(ctx: &mut Ctx, v: &Value) {
         }
         return;
     }
+    if let Some(u) = cj.get("ping_upgrade") {
+        ctx.case(None);
+        ctx.force_sample(cj.clone());
+        match start_ping() {
+            None => ctx.inconclusive("the ping example binary is not built"),
+            Some(server) => {
+                if let Err(f) = run_ping_upgrade(&server.addr, u["line_bytes"].as_u64().unwrap_or(9000) as usize, u["one_write"].as_bool().unwrap_or(true)) {
+                    ctx.violation(&f.key, &f.what, "c02-replay", cj.clone());
+                }
+            }
+        }
+        return;
+    }
     if cj["ping_multiplex"] == json!(true) {
         ctx.case(None);
         ctx.force_sample(cj.clone());
@@ -938,6 +951,62 @@ pub fn run_ping_case(addr: &str, c: &PingCase) -> Result<bool, Fail> {
     Ok(!hung)
 }
 
+/// An upgrading call through examples/ping --multiplex: every byte behind the upgrade request belongs to the
+/// upgraded handler (which answers each line with `server reply: <line>`), whether it travels in the same
+/// write as the request - also beyond the 8 KiB the example reads at a time - or follows the upgrade reply.
+pub fn run_ping_upgrade(addr: &str, line_len: usize, one_write: bool) -> Result<(), Fail> {
+    use std::io::{Read, Write};
+    let path = addr.trim_start_matches("unix:");
+    let mut s = std::os::unix::net::UnixStream::connect(path).map_err(|e| Fail::new("HARNESS/ping-connect", e.to_string()))?;
+    let _ = s.set_read_timeout(Some(Duration::from_millis(200)));
+    let line: Vec<u8> = (0..line_len).map(|i| b'a' + (i % 23) as u8).collect();
+    let req = b"{\"method\":\"org.example.ping.Upgrade\",\"upgrade\":true}\0".to_vec();
+    let mut payload = line.clone();
+    payload.extend_from_slice(b"\nEnd\n");
+    let mut want = b"{}\0server reply: ".to_vec();
+    want.extend_from_slice(&line);
+    want.push(b'\n');
+    let mut got: Vec<u8> = vec![];
+    let mut buf = [0u8; 65536];
+    let mut read_until = |s: &mut std::os::unix::net::UnixStream, got: &mut Vec<u8>, n: usize, patience: Duration| {
+        let t0 = std::time::Instant::now();
+        while got.len() < n && t0.elapsed() < patience {
+            match s.read(&mut buf) {
+                Ok(0) => break,
+                Ok(k) => got.extend_from_slice(&buf[..k]),
+                Err(_) => {}
+            }
+        }
+    };
+    if one_write {
+        let mut all = req.clone();
+        all.extend_from_slice(&payload);
+        let _ = s.write_all(&all);
+    } else {
+        let _ = s.write_all(&req);
+        read_until(&mut s, &mut got, 3, Duration::from_secs(5));
+        let _ = s.write_all(&payload);
+    }
+    read_until(&mut s, &mut got, want.len(), Duration::from_secs(5));
+    if !got.starts_with(&want) {
+        let d = first_diff(&got, &want);
+        return Err(Fail::new(
+            "ping-multiplex/upgraded-bytes",
+            format!(
+                "examples/ping --multiplex: upgrade request {} a line of {} bytes: the upgraded handler's answer differs at offset {} ({} bytes arrived, {} expected): got {} vs expected {}",
+                if one_write { "and, in the same write," } else { "answered, then" },
+                line_len,
+                d,
+                got.len(),
+                want.len(),
+                show(&got, d),
+                show(&want, d)
+            ),
+        ));
+    }
+    Ok(())
+}
+
 struct PingServer {
     child: std::process::Child,
     _scratch: Scratch,
@@ -997,6 +1066,19 @@ fn ping_multiplex(ctx: &mut Ctx, cases: u32) {
     }
     if hung.get() > 0 {
         ctx.inconclusive(&format!("{} ping-multiplex runs did not reach end-of-stream within 10 s", hung.get()));
+    }
+    // upgrading calls: payload in the same write as the request (below and beyond one 8 KiB read) or behind the reply
+    if !ctx.failed() {
+        'up: for len in [10usize, 100, 8000, 8130, 8200, 9000, 20_000, 70_000] {
+            for one_write in [true, false] {
+                ctx.case(Some(hash64(&("ping-upgrade", len, one_write))));
+                ctx.class("ping-multiplex:upgrade-with-payload");
+                if let Err(f) = pt::guard(|| run_ping_upgrade(&addr, len, one_write)) {
+                    ctx.violation(&f.key, &f.what, "c02-ping", json!({"ping_upgrade": {"line_bytes": len, "one_write": one_write}}));
+                    break 'up;
+                }
+            }
+        }
     }
     drop(server);
 }
